@@ -36,7 +36,7 @@ Fixpoint level_loop (inner : Z -> bytes -> res nat) (dbg validate : bool) (fuel 
 
 Fixpoint view_level (cz : codecs) (depth : nat) (validate : bool) (bs : bytes) : res nat :=
   match depth with
-  | O => Err EOutOfFuel
+  | O => Err EUnsupportedCompression
   | S d =>
       level_loop (fun c v =>
                     if c =? COMPRESSION_GZIP then
@@ -84,7 +84,7 @@ Fixpoint owner_loop (inner : Z -> bytes -> res (option nat)) (dbg validate : boo
    into `bs` itself, which the caller owns - for the top level that is Response.raw_data) *)
 Fixpoint owner_level (cz : codecs) (depth : nat) (validate : bool) (bs : bytes) : res (option nat) :=
   match depth with
-  | O => Err EOutOfFuel
+  | O => Err EUnsupportedCompression
   | S d =>
       owner_loop (fun c v =>
                     let from_vec data :=
